@@ -46,6 +46,11 @@
     Object store locators belong to accounts: [MBindLoc]'s flag [has_acct] is the fact, observed
     by the harness in the auth module, that the owner account exists; uri 0 stands for a URI that
     checkValidURI rejects (no scheme / host, too long).
+    Party rollup: what is modelled is the flag's effect on which owner lists are valid
+    (optional parties) and on which messages look up the scope specification; the signer side
+    (every non-optional party signs, every role of the specification has a signing party) is kept
+    satisfied by the harness: all accounts sign, every scope it writes has an OWNER party, session
+    parties are an OWNER party of the scope.
     NOT modelled (the harness keeps inside): signature / party-role / smart-contract checks
     (every message is signed by all accounts and parties carry the roles the specs ask for),
     value owners (scopes are written without one; C09), record inputs/outputs (always conform),
@@ -54,7 +59,15 @@ From Coq Require Import ZArith List Bool.
 Import ListNotations.
 Open Scope Z_scope.
 
-Record scope := Sc { sc_id : Z; sc_spec : Z; sc_owners : list Z; sc_da : list Z }.
+(** A scope: [sc_owners] are the owner PARTIES, [sc_rollup] is require_party_rollup.  A party is
+    coded as one integer: entry + 1000 * role + 100000 * (1 if optional), where entry (< 1000) is
+    the address string as below (account and spelling), role 0 = OWNER (the only role the
+    harness's specifications involve), 1 = CUSTODIAN, 2 = INVESTOR ...  So a plain entry [a] is the
+    required OWNER party of that address string, and [acct] (the decoded address) works on
+    parties and on data-access entries alike. *)
+Record scope := ScR { sc_id : Z; sc_spec : Z; sc_owners : list Z; sc_da : list Z; sc_rollup : bool }.
+(** a scope without party rollup *)
+Definition Sc (id spec : Z) (owners da : list Z) : scope := ScR id spec owners da false.
 Record session := Se { se_scope : Z; se_uuid : Z; se_spec : Z }.       (* se_spec: contract spec *)
 Record record := Re { r_scope : Z; r_name : Z; r_sess : Z }.
 Record sspec := Ss { ss_id : Z; ss_owners : list Z; ss_cspecs : list Z }.
@@ -284,7 +297,22 @@ Fixpoint nodupz (l : list Z) : bool :=
   match l with [] => true | x :: t => negb (memz x t) && nodupz t end.
 (** ValidatePartiesBasic on parties that all carry the same role: at least one, no two with the
     same address STRING (the two spellings of one account are different parties) *)
-Definition owners_basic (l : list Z) : bool := match l with [] => false | _ => nodupz l end.
+Definition p_entry (p : Z) : Z := p mod 1000.          (* the address string *)
+Definition p_same (p : Z) : Z := p mod 100000.         (* address string + role: Party.IsSameAs *)
+Definition p_role (p : Z) : Z := (p / 1000) mod 100.
+Definition p_opt (p : Z) : bool := 100000 <=? p.        (* Party.Optional *)
+Definition owners_basic (l : list Z) : bool :=
+  match l with [] => false | _ => nodupz (map p_same l) end.
+(** ValidateOptionalParties: optional parties only on scopes with party rollup *)
+Definition optional_ok (rollup : bool) (l : list Z) : bool := rollup || negb (existsb p_opt l).
+(** validateRolesPresent against parties_involved = [OWNER] (every specification the harness
+    writes): some party has the role OWNER *)
+Definition roles_present (l : list Z) : bool := existsb (fun p => p_role p =? 0) l.
+(** Scope.ValidateOwnersBasic + validateRolesPresent *)
+Definition owners_ok (rollup : bool) (l : list Z) : bool :=
+  owners_basic l && optional_ok rollup l && roles_present l.
+(** Scope.RemoveOwners: drop every party whose ADDRESS is listed *)
+Definition drop_addrs (l cur : list Z) : list Z := filter (fun p => negb (memz (p_entry p) l)) cur.
 (** Scope.AddDataAccess: append every entry that is not there yet (also de-duplicates the request) *)
 Definition add_each (l cur : list Z) : list Z :=
   fold_left (fun cur a => if memz a cur then cur else cur ++ [a]) l cur.
@@ -338,9 +366,10 @@ Definition step (st : state) (o : op) : state * bool :=
   | KRemoveNavs sc => ok (remove_navs st sc)
 
   | MWriteScope s mills =>
-      (* Scope.ValidateBasic: owners are ValidatePartiesBasic; ValidateWriteScope: the scope
-         specification must exist; msg.UsdMills > 0 sets a usd NAV *)
-      if negb (owners_basic (sc_owners s)) then (st, false) else
+      (* Scope.ValidateBasic: owners are ValidatePartiesBasic, optional parties only with party
+         rollup; ValidateWriteScope: the scope specification must exist and its roles be present;
+         msg.UsdMills > 0 sets a usd NAV *)
+      if negb (owners_ok (sc_rollup s) (sc_owners s)) then (st, false) else
       if negb (isSome (find_sspec st (sc_spec s))) then (st, false) else
       let st1 := if 0 <? mills then set_nav st (sc_id s) usd mills else Some st in
       of_opt st (option_map (fun st1 => set_scope st1 s) st1)
@@ -350,42 +379,47 @@ Definition step (st : state) (o : op) : state * bool :=
   | MAddDataAccess id l =>
       (* ValidateBasic: the list is not empty; ValidateAddScopeDataAccess: no requested entry is
          already there (compared as STRINGS); then GetScope -> AddDataAccess -> SetScope.  The
-         scope specification is NOT looked up (scopes without party rollup). *)
+         scope specification is looked up only for scopes with party rollup. *)
       match l, find_scope st id with
       | [], _ | _, None => (st, false)
-      | _, Some sc => if existsb (fun a => memz a (sc_da sc)) l then (st, false)
-                      else ok (set_scope st (Sc (sc_id sc) (sc_spec sc) (sc_owners sc) (add_each l (sc_da sc))))
+      | _, Some sc => if existsb (fun a => memz a (sc_da sc)) l
+                         || (sc_rollup sc && negb (isSome (find_sspec st (sc_spec sc)))) then (st, false)
+                      else ok (set_scope st (ScR (sc_id sc) (sc_spec sc) (sc_owners sc) (add_each l (sc_da sc)) (sc_rollup sc)))
       end
   | MDelDataAccess id l =>
       match l, find_scope st id with
       | [], _ | _, None => (st, false)
-      | _, Some sc => if negb (forallb (fun a => memz a (sc_da sc)) l) then (st, false)
-                      else ok (set_scope st (Sc (sc_id sc) (sc_spec sc) (sc_owners sc) (drop_all l (sc_da sc))))
+      | _, Some sc => if negb (forallb (fun a => memz a (sc_da sc)) l)
+                         || (sc_rollup sc && negb (isSome (find_sspec st (sc_spec sc)))) then (st, false)
+                      else ok (set_scope st (ScR (sc_id sc) (sc_spec sc) (sc_owners sc) (drop_all l (sc_da sc)) (sc_rollup sc)))
       end
   | MAddOwners id l =>
-      (* ValidateBasic: ValidatePartiesBasic(msg.Owners); AddOwners: a new party equal to an
-         existing one is an error, otherwise appended; ValidateUpdateScopeOwners: the resulting
-         owners are ValidatePartiesBasic, the scope specification must exist *)
+      (* ValidateBasic: ValidatePartiesBasic(msg.Owners); AddOwners: a new party that IsSameAs
+         (address string and role) an existing one is an error, otherwise appended;
+         ValidateUpdateScopeOwners: the resulting owners are ValidateOwnersBasic (optional parties
+         only with party rollup), the scope specification must exist, its roles be present *)
       if negb (owners_basic l) then (st, false) else
       match find_scope st id with
       | None => (st, false)
       | Some sc =>
           let owners' := sc_owners sc ++ l in
-          if existsb (fun a => memz a (sc_owners sc)) l || negb (owners_basic owners')
+          if existsb (fun a => memz (p_same a) (map p_same (sc_owners sc))) l
+             || negb (owners_ok (sc_rollup sc) owners')
              || negb (isSome (find_sspec st (sc_spec sc))) then (st, false)
-          else ok (set_scope st (Sc (sc_id sc) (sc_spec sc) owners' (sc_da sc)))
+          else ok (set_scope st (ScR (sc_id sc) (sc_spec sc) owners' (sc_da sc) (sc_rollup sc)))
       end
   | MDelOwners id l =>
       (* ValidateBasic: at least one address; RemoveOwners: every address must be an owner's
-         (as a STRING), all parties with a listed address go; the rest as for AddScopeOwner - in
-         particular the last owner cannot be removed *)
+         (as a STRING), all parties with a listed address go (whatever their role); the rest as
+         for AddScopeOwner - in particular the last owner cannot be removed *)
       match l, find_scope st id with
       | [], _ | _, None => (st, false)
       | _, Some sc =>
-          let owners' := drop_all l (sc_owners sc) in
-          if negb (forallb (fun a => memz a (sc_owners sc)) l) || negb (owners_basic owners')
+          let owners' := drop_addrs l (sc_owners sc) in
+          if negb (forallb (fun a => memz a (map p_entry (sc_owners sc))) l)
+             || negb (owners_ok (sc_rollup sc) owners')
              || negb (isSome (find_sspec st (sc_spec sc))) then (st, false)
-          else ok (set_scope st (Sc (sc_id sc) (sc_spec sc) owners' (sc_da sc)))
+          else ok (set_scope st (ScR (sc_id sc) (sc_spec sc) owners' (sc_da sc) (sc_rollup sc)))
       end
   | MBindLoc has_acct a uri => of_opt st (set_loc st has_acct (acct a) uri)
   | MDelLoc a => of_opt st (remove_loc st (acct a))
